@@ -10,7 +10,7 @@
    fragment: a map entry that is a struct held by value has scalar/string/bytes fields only, no
    []byte and no map held by value as slice element, no []byte as map value. *)
 From Coq Require Import List Bool String Ascii ZArith Arith Floats.SpecFloat.
-From Verif Require Import Util Ints Floats Node GoSrc Value Outcome Nav LCSound SetEmit SetSpec SetSound SetMono Shapes GenUnits GenC03.
+From Verif Require Import Util Ints Floats Node GoSrc Value Outcome Nav LCSound SetEmit SetSpec SetSound SetMono SetGet Shapes GenUnits GenC03.
 Import ListNotations.
 Local Open Scope string_scope.
 
@@ -27,6 +27,22 @@ Theorem C03_frame_and_store : forall s buf n v path,
   end.
 Proof. exact set_method_sound. Qed.
 Print Assumptions C03_frame_and_store.
+
+(* Set then get.  The path denotes an existing scalar, string or bytes element [en] (not behind a
+   nil pointer: its content is x) and the assigned value converts to the element's type
+   ([conv] of Spec/SetSpec.v gives c): after Set / SetWithBuffer, with or without a buffer,
+   reading that path in the new object yields the converted value (equal canonical text; for a
+   pointer element a pointer to it). *)
+Theorem C03_set_then_get : forall s buf n v path en ev x c,
+  wfn n = true -> sound_set n = true -> root_ok n = true -> wtb n v = true ->
+  nav n v path = NElem en ev -> is_leaf_node en = true ->
+  ev = (if n_ptr en then VPtr (Some x) else x) ->
+  conv en (aval_of_src s) = Some c ->
+  exists v' e ev', set_method n v path s buf = Ret v' e /\
+                   nav n v' path = NElem en ev' /\
+                   val_eqb ev' (if n_ptr en then VPtr (Some c) else c) = true.
+Proof. exact set_then_get. Qed.
+Print Assumptions C03_set_then_get.
 
 (* The frame clause alone, as the stream judges it on the real objects ([frame_ok]: the end of the
    path is free): whatever the path and the value, no element off the path changes. *)
